@@ -199,7 +199,7 @@ func runC02(c *Ctx) {
 		for _, name := range []string{"Add", "AddFast"} {
 			fn := p.Func(otPkg + ":(*Tree)." + name)
 			add := p.Func(otPkg + ":(*Tree).add")
-			requireFollowedBy(c, "C02.2-ingress-provenance", fn, CallSinks(fn, CalleeFn(add), false), "Tree.add", CalleeFn(clear), "clearUnattached", false)
+			requireFollowedBy(c, "C02.2-ingress-provenance", fn, CallSinksX(fn, CalleeFn(add), false), "Tree.add", CalleeFn(clear), "clearUnattached", false)
 		}
 		// verify=false call sites
 		allowed := map[string]string{
@@ -345,9 +345,25 @@ func runC02(c *Ctx) {
 		lastIt := p.Field(otPkg + ":Tree.lastIteratedHeadId")
 		attached := p.Field(otPkg + ":Tree.attached")
 		next := p.Field(otPkg + ":Change.Next")
+		// the rollback operation: a closure of addChangesToTree, or the function such a closure
+		// forwards to, that restores Tree.headIds and deletes from Tree.attached
+		var cands []*ssa.Function
 		for _, a := range addToTree.AnonFuncs {
-			if len(FieldWrites([]*ssa.Function{a}, headIds)) > 0 {
-				rb = a
+			cands = append(cands, a)
+			for _, ci := range CallsIn(a) {
+				if cf := CalleeFunc(ci.Common()); cf != nil && cf.Blocks != nil && IsRepoFunc(cf) {
+					cands = append(cands, cf)
+				}
+			}
+		}
+		for _, a := range cands {
+			if len(FieldWrites([]*ssa.Function{a}, headIds)) == 0 {
+				continue
+			}
+			for _, w := range FieldWrites([]*ssa.Function{a}, attached) {
+				if w.Kind == "mapdelete" {
+					rb = a
+				}
 			}
 		}
 		if rb == nil {
